@@ -165,21 +165,32 @@ def check_postprocessing(ctx):
         raise AnalysisError("EprMeasBasis not found")
     bases = list(ev.enum_members(emb))
     # basis <-> rotation tables
-    tables = {}
-    for fname in ("rotation_to_basis", "basis_to_rotation"):
-        fn = m.functions.get(fname)
-        if fn is None:
-            raise AnalysisError(f"{fname} not found")
-        ctx.fn(f"build_epr.{fname}")
-        p = A.param_names(fn)[0]
-        t = {}
-        for kx, vx in A.case_returns(fn, p):
-            key = ev.try_eval(kx, m)
-            val = ev.try_eval(vx, m) if vx is not None else None
-            k = key.name if isinstance(key, EnumMember) else key
-            v = val.name if isinstance(val, EnumMember) else val
-            t[k] = v
-        tables[fname] = t
+    # both conversion functions are executed abstractly (nqsa/circuit.py), however their tables are kept
+    members = ev.enum_members(emb)
+    f_b2r, f_r2b = m.functions.get("basis_to_rotation"), m.functions.get("rotation_to_basis")
+    if f_b2r is None or f_r2b is None:
+        raise AnalysisError("rotation_to_basis / basis_to_rotation not found")
+    ctx.fn("build_epr.rotation_to_basis")
+    ctx.fn("build_epr.basis_to_rotation")
+
+    def _run(fn, arg):
+        try:
+            return C.Interp(repo, ev, C.Scenario(), None).call_function(m, fn, [arg], {})
+        except C.EvalRaise:
+            return None
+
+    b2r, r2b = {}, {}
+    try:
+        for bn in bases:
+            rot = _run(f_b2r, EnumMember(emb.qualname, bn, members[bn]))
+            b2r[bn] = tuple(rot) if isinstance(rot, (tuple, list)) else None
+        for rot in set(v for v in b2r.values() if v is not None) | {(1, 2, 3), (0, 0, 0)}:
+            back = _run(f_r2b, rot)
+            r2b[rot] = back.name if isinstance(back, EnumMember) else back
+    except AnalysisError as ex_:
+        ctx.error("C10.M", f"basis <-> rotation functions cannot be evaluated: {ex_}")
+        return
+    tables = {"rotation_to_basis": r2b, "basis_to_rotation": b2r}
     r2b, b2r = tables["rotation_to_basis"], tables["basis_to_rotation"]
     for bn in bases:
         rot = b2r.get(bn)
@@ -208,21 +219,33 @@ def check_postprocessing(ctx):
     if mo is None:
         raise AnalysisError("EprMeasureResult.measurement_outcome not found")
     ctx.fn("EprMeasureResult.measurement_outcome")
-    flips: Dict[str, set] = {}
-    basis_var = None
-    for kx, body in A.case_bodies(mo, "self.bell_state"):
-        st = ev.try_eval(kx, m)
-        name = st.name if isinstance(st, EnumMember) else None
-        fl = set()
-        for s in body:
-            if isinstance(s, ast.If) and isinstance(s.test, ast.Compare) and isinstance(s.test.ops[0], ast.In):
-                basis_var = A.norm(s.test.left)
-                lst = ev.try_eval(s.test.comparators[0], m)
-                xor = any(isinstance(x, ast.Assign) and isinstance(x.value, ast.BinOp) and isinstance(x.value.op, ast.BitXor) and A.norm(x.value.right) == "1" and A.norm(x.value.left) == A.norm(x.targets[0]) for x in s.body)
-                if lst is not None and xor:
-                    fl |= {e.name for e in lst if isinstance(e, EnumMember)}
-        if name:
-            flips[name] = fl
+    # the property is executed abstractly for every (reported Bell state, basis, raw outcome): flipped <=> returned != raw.
+    # The result object holds the raw outcome, the rotations of both sides (basis_to_rotation of the basis) and the raw Bell state.
+    bsc = repo.get_class("netqasm.qlink_compat", "BellState")
+    bsm = ev.enum_members(bsc)
+    flips: Dict[str, set] = {n_: set() for n_ in bsm}
+    eval_err = None
+    raw_when_off = True
+
+    def outcome(sname, bn, raw, post, remote=None):
+        o = C.Obj(emr, {"post_process": post, "raw_measurement_outcome": raw, "measurement_basis_local": b2r.get(bn), "measurement_basis_remote": b2r.get(remote or bn),
+                        "raw_bell_state": C.Obj(None, {"value": bsm[sname]})}, "self")
+        return C.Interp(repo, ev, C.Scenario(), emr).call_function(m, mo, [], {}, self_obj=o)
+
+    try:
+        for sname in bsm:
+            for bn in bases:
+                res = [outcome(sname, bn, raw, True) for raw in (0, 1)]
+                if res == [1, 0]:
+                    flips[sname].add(bn)
+                elif res != [0, 1]:
+                    flips[sname].add(f"{bn}:{res}")
+                if [outcome(sname, bn, raw, False) for raw in (0, 1)] != [0, 1]:
+                    raw_when_off = False
+    except (AnalysisError, C.EvalRaise) as ex_:
+        eval_err = str(ex_)
+        ctx.error("C10.M", f"EprMeasureResult.measurement_outcome cannot be evaluated: {ex_}")
+        return
     n_entries = 0
     for sname in ("PHI_PLUS", "PHI_MINUS", "PSI_PLUS", "PSI_MINUS"):
         corr = CORRECTION[sname]
@@ -235,20 +258,24 @@ def check_postprocessing(ctx):
                       f"outcome measured in basis {bn} with reported {sname}: flipped={got}; Phi+ statistics need flipped={want} (the correcting Pauli {corr.upper()} {'anti' if want else ''}commutes with {axis.upper()})",
                       emr.loc(mo), sample={"state": sname, "basis": bn, "flip": got} if n_entries % 6 == 1 else None)
     ctx.anchor("C10.M", "post-processing table entries", n_entries, 24)
-    # outcome returned is the flipped value of the raw outcome; only when post_process; local == remote basis required
-    d = {}
-    for n in ast.walk(mo):
-        if isinstance(n, ast.Assign) and isinstance(n.targets[0], ast.Name):
-            d.setdefault(n.targets[0].id, []).append(A.norm(n.value))
-    mvars = [k for k, vs in d.items() if "int(self.raw_measurement_outcome)" in vs]
-    ok = len(mvars) == 1 and any(A.norm(r.value) == mvars[0] for r in A.returns(mo))
-    raw_ret = any(isinstance(n, ast.If) and A.norm(n.test) == "notself.post_process" and any(isinstance(s, ast.Return) and A.norm(s.value) == "int(self.raw_measurement_outcome)" for s in n.body) for n in ast.walk(mo))
-    ctx.check("C10.M", "measurement_outcome:raw-when-not-post-processing", ok and raw_ret, "measurement_outcome does not return the raw outcome when post_process is off / the corrected raw outcome otherwise", emr.loc(mo))
+    # without post-processing the raw outcome is returned unchanged (evaluated above for every state and basis)
+    ctx.check("C10.M", "measurement_outcome:raw-when-not-post-processing", raw_when_off, "measurement_outcome does not return the raw outcome when post_process is off", emr.loc(mo))
     bs = emr.methods.get("bell_state")
     ok = bs is not None and any(A.norm(r.value) == "BellState(self.raw_bell_state.value)" for r in A.returns(bs))
     ctx.check("C10.M", "EprMeasureResult.bell_state:from-own-raw-bell-state", ok, "bell_state is not BellState(self.raw_bell_state.value)", emr.loc(bs) if bs else "", trivial=True)
-    ok = basis_var is not None and basis_var in d and any("rotation_to_basis(self.measurement_basis_local)" == v for v in d[basis_var])
-    ctx.check("C10.M", "measurement_outcome:basis-is-local-measurement-basis", ok, f"the basis used for post-processing ({basis_var}) is not the local measurement basis", emr.loc(mo))
+    # the basis that decides the flip is the local one: with different local / remote bases no post-processed outcome is handed out
+    mixed = []
+    try:
+        for bl, br_ in (("X", "Z"), ("Z", "Y")):
+            if bl in bases and br_ in bases:
+                try:
+                    mixed.append(outcome("PSI_PLUS", bl, 0, True, remote=br_))
+                except C.EvalRaise:
+                    mixed.append("raises")
+    except AnalysisError as ex_:
+        ctx.error("C10.M", f"measurement_outcome cannot be evaluated for unequal bases: {ex_}")
+    ctx.check("C10.M", "measurement_outcome:basis-is-local-measurement-basis", all(x == "raises" for x in mixed) and bool(mixed),
+              f"with unequal local and remote bases a post-processed outcome is returned ({mixed}) instead of an error", emr.loc(mo))
 
 
 def unit_of(fn_outer, node):
